@@ -83,6 +83,7 @@ static struct {
         /* for each consumed frame: was the device open, who was subscribed … filled by the harness if wanted */
 } env_cap;
 
+static int    env_passthrough;           /* 1: real select()/send()/time(): the daemon runs as a separate process (conformance runs) */
 static void (*env_on_capture)(int k);    /* called when the daemon reads frame k from the capture object */
 static unsigned env_buffer_count = 0;    /* daemon option -buffers (0: default) */
 static void env_make_frame(int k, env_frame_t *f)
@@ -109,6 +110,7 @@ static int cap_read(vbi_capture *c, vbi_capture_buffer **raw, vbi_capture_buffer
         if (env_cap.efd < 0 || read(env_cap.efd, &v, 8) != 8) { env_cap.empty_reads++; return 0; }   /* timeout: no frame due */
         int k = env_cap.consumed++;
         env_frame_t *f = &env_cap.frame[k % ENV_MAX_FRAMES];
+        if (env_passthrough) env_make_frame(k, f);       /* frames are posted by another process: content is a function of k */
         if (env_on_capture) env_on_capture(k);
         if (raw && *raw && (*raw)->data) { memset((*raw)->data, k, 64); (*raw)->size = 64; (*raw)->timestamp = f->timestamp; }
         if (sliced) {
@@ -208,6 +210,7 @@ static time_t env_alarm_at;              /* 0 = no alarm armed */
 static int    env_send_cap;              /* > 0: wrapped send() accepts at most this many bytes (one shot) */
 static int    env_send_eagain;           /* > 0: next send() fails with EAGAIN (one shot) */
 static long   env_select_calls;
+static uint8_t env_tap[8192]; static int env_tap_len; static int env_tap_on;   /* bytes the local process sent (real client library) */
 static int    env_eintr_pending;         /* a signal was delivered: the next select() fails once with EINTR */
 static long   env_send_calls, env_send_bytes;
 int         (*env_hook_fn)(int nready);
@@ -223,15 +226,21 @@ int     __real_accept(int, struct sockaddr *, socklen_t *);
 ssize_t __real_send(int, const void *, size_t, int);
 time_t  __real_time(time_t *);
 
-time_t __wrap_time(time_t *t) { if (t) *t = env_now; return env_now; }
+time_t __wrap_time(time_t *t) { if (env_passthrough) return __real_time(t); if (t) *t = env_now; return env_now; }
 unsigned int __wrap_alarm(unsigned int secs)
 {
+        if (env_passthrough) return 0;
         unsigned int rest = env_alarm_at > env_now ? (unsigned int)(env_alarm_at - env_now) : 0;
         env_alarm_at = secs ? env_now + secs : 0;
         return rest;
 }
 ssize_t __wrap_send(int fd, const void *buf, size_t n, int flags)
 {
+        if (env_passthrough) {
+                ssize_t r = __real_send(fd, buf, n, flags | MSG_NOSIGNAL);
+                if (env_tap_on && r > 0 && env_tap_len + r <= (ssize_t) sizeof env_tap) { memcpy(env_tap + env_tap_len, buf, r); env_tap_len += r; }
+                return r;
+        }
         env_send_calls++;
         for (int c = 0; c < ENV_MAX_CLIENTS; c++)
                 if (env_clnt[c].daemon_fd == fd && env_clnt[c].fd >= 0 && env_clnt[c].stalled) { errno = EAGAIN; return -1; }
@@ -261,7 +270,7 @@ int __wrap_accept(int lfd, struct sockaddr *sa, socklen_t *len)
 
 int __wrap_select(int n, fd_set *rd, fd_set *wr, fd_set *ex, struct timeval *tv)
 {
-        (void) tv;
+        if (env_passthrough) return __real_select(n, rd, wr, ex, tv);
         for (;;) {
                 fd_set r, w; struct timeval zero = { 0, 0 };
                 FD_ZERO(&r); FD_ZERO(&w);
